@@ -25,14 +25,20 @@ import (
 )
 
 func init() {
-	// C13.forms.census <dialect> <stmt-hex> →
-	//   unparseable | reparse-fails | <Kind> <present top-level fields, comma-joined or -> same | … diff <what>
+	// C13.forms.census <dialect> <stmt-hex> <statement kinds, comma-joined> →
+	//   unparseable | reparse-fails | <nodes> same | <nodes> diff <what>
+	// <nodes>: every statement node of Parse s in pre-order (the statement itself first), `|`-joined, each
+	// `Kind:Field[=hex of a short string value],…` listing its filled fields
 	core.Register("C13.forms.census", func(a []string) string {
 		c16.SetDialect(a[0])
 		p := sqlparser.New(sqlparser.ModeStrict)
 		t1, err := p.Parse(string(core.UnHex(a[1])))
 		if err != nil {
 			return "unparseable"
+		}
+		kinds := map[string]bool{}
+		for _, k := range strings.Split(a[2], ",") {
+			kinds[k] = true
 		}
 		d1 := canon(sqlast.FromNode(t1))
 		t2, err := p.Parse(sqlparser.String(t1))
@@ -43,12 +49,23 @@ func init() {
 		c1, c2 := map[string]int{}, map[string]int{}
 		sqlast.Census(d1, c1)
 		sqlast.Census(d2, c2)
-		present := sqlast.PresentFields(d1)
-		ps := "-"
-		if len(present) > 0 {
-			ps = strings.Join(present, ",")
-		}
-		head := d1.Kind + " " + ps + " "
+		var nodes []string
+		d1.Walk(func(t *sqlast.Tree, _ []int) {
+			if t.IsAtom || t.Names == nil || len(t.Names) != len(t.Kids) || !(kinds[t.Kind] || len(nodes) == 0) {
+				return
+			}
+			var fs []string
+			for _, f := range sqlast.PresentFields(t) {
+				for i, n := range t.Names {
+					if n == f && t.Kids[i].IsAtom && len(t.Kids[i].Atom) <= 40 {
+						f += "=" + core.Hex(t.Kids[i].Atom)
+					}
+				}
+				fs = append(fs, f)
+			}
+			nodes = append(nodes, t.Kind+":"+strings.Join(fs, ","))
+		})
+		head := strings.Join(nodes, "|") + " "
 		var keys []string
 		for k := range c1 {
 			keys = append(keys, k)
@@ -81,7 +98,10 @@ type formProd struct {
 	fields     map[string]string // field → zeroness
 }
 
-type formCond struct{ field, rel string }
+type formCond struct {
+	field, rel string
+	vals       []string
+}
 
 type formPath struct {
 	kind    string
@@ -130,7 +150,13 @@ func parseFormPaths(line string) []formPath {
 		if f[2] != "-" {
 			for _, s := range strings.Split(f[2], ",") {
 				x := strings.Split(s, ":")
-				p.conds = append(p.conds, formCond{unhexS(x[0]), x[1]})
+				c := formCond{field: unhexS(x[0]), rel: x[1]}
+				if len(x) > 2 && x[2] != "-" {
+					for _, v := range strings.Split(x[2], "+") {
+						c.vals = append(c.vals, unhexS(v))
+					}
+				}
+				p.conds = append(p.conds, c)
 			}
 		}
 		if f[3] != "-" {
@@ -141,20 +167,35 @@ func parseFormPaths(line string) []formPath {
 	return out
 }
 
-// pathOf: the first path of the kind whose emptiness conditions hold for the present fields (the other kinds of
-// condition – constants, dialect, opaque – are not decided here: the answer is then "one of" and the first is taken).
-func pathOf(paths []formPath, kind string, present map[string]bool) int {
+// pathOf: the first path of the kind whose conditions hold for the node: emptiness of fields, comparisons of a string
+// field with the regenerated constants, the dialect switch. Conditions on sub-fields (`ShowTablesOpt.DbName`) and
+// opaque ones are not decided (the answer is then "one of them" and the first is taken).
+func pathOf(paths []formPath, kind string, present map[string]bool, values map[string]string, dialect string) int {
 	for _, p := range paths {
 		if p.kind != kind {
 			continue
 		}
 		ok := true
 		for _, c := range p.conds {
+			if strings.Contains(c.field, ".") {
+				continue
+			}
+			in := false
+			for _, v := range c.vals {
+				in = in || v == values[c.field]
+			}
 			switch c.rel {
 			case "zero":
 				ok = ok && !present[c.field]
 			case "nonzero":
 				ok = ok && present[c.field]
+			case "eq":
+				ok = ok && in
+			case "notin":
+				ok = ok && !in
+			case "dialect":
+				isMy := len(c.vals) > 0 && strings.Contains(strings.ToLower(c.vals[0]), "mysql")
+				ok = ok && isMy == strings.HasPrefix(dialect, "my")
 			}
 		}
 		if ok {
@@ -169,69 +210,69 @@ func pathOf(paths []formPath, kind string, present map[string]bool) int {
 
 var formFragments = map[string][]string{
 	"openb": {"("}, "closeb": {")"},
-	"ID": {"foo", "bar1"},
-	"comment_opt":             {"/* c1 */", "/* a */ /* b */"},
-	"cache_opt":               {"sql_no_cache", "sql_cache"},
-	"distinct_opt":            {"distinct"},
-	"straight_join_opt":       {"straight_join"},
-	"select_expression_list":  {"a, b", "*", "t.a as x, count(*), 'lit'", "a + 1, -b, (c)"},
-	"select_expression":       {"a", "*", "t.a as x"},
-	"from_opt":                {"from t", "from t, u", "from t join u on t.a = u.a", "from t as x left join u on x.a = u.a", "from (select a from v) as s"},
-	"from_table_opt":          {"from u", "from u, v as w", "from u join v on u.a = v.a"},
-	"where_expression_opt":    {"where a = 1", "where a = 1 and (b < 2 or c is null)", "where a in (1, 2) and b like 'x%'", "where exists (select 1 from v)"},
-	"group_by_opt":            {"group by a", "group by a, b + 1"},
-	"having_opt":              {"having count(*) > 1", "having a = 1 or b = 2"},
-	"order_by_opt":            {"order by a", "order by a desc, b asc"},
-	"limit_opt":               {"limit 5", "limit 5 offset 2", "limit 2, 5", "limit all", "limit all offset 3"},
-	"lock_opt":                {"for update", "lock in share mode"},
-	"num_val":                 {"5", "?"},
-	"for_from":                {"for", "from"},
-	"table_name":              {"t", "db.t"},
-	"table_id":                {"t", "db1"},
-	"union_op":                {"union", "union all", "union distinct"},
-	"insert_or_replace":       {"insert", "replace"},
-	"ignore_opt":              {"ignore"},
-	"into_table_name":         {"into t", "t", "into db.t"},
-	"opt_partition_clause":    {"partition (p0)", "partition (p0, p1)"},
-	"tuple_list":              {"(1, 'a')", "(1, 'a'), (2, null)", "(default, a + 1)"},
-	"ins_column_list":         {"a, b", "a, t.b"},
-	"on_dup_opt":              {"on duplicate key update a = 1", "on duplicate key update a = values(a), b = b + 1"},
-	"returning_opt":           {"returning a", "returning *", "returning a, b + 1 as c"},
-	"update_list":             {"a = 1", "a = 1, b = 'x'", "t.a = b + 1, c = (select 1 from v)"},
-	"table_references":        {"t", "t, u", "t join u on t.a = u.a", "t as x"},
-	"aliased_table_name":      {"t", "t as x", "db.t"},
-	"aliased_table_name_list": {"t", "t, u", "t as x, u"},
-	"from_or_using":           {"from", "using"},
-	"set_list":                {"a = 1", "a = 1, b = 'x'", "names utf8", "autocommit = on"},
-	"set_to_list":             {"search_path to public", "a to 1, 2"},
-	"set_operation_scope":     {"session", "global", "local"},
-	"set_session_or_global":   {"session", "global"},
-	"transaction_chars":       {"isolation level read committed", "read only", "isolation level serializable, read write"},
-	"using_in_execute_list":   {"@a", "@a, @b"},
-	"row_tuple":               {"(1, 'a')", "(1)"},
-	"column_any_type_list":    {"int", "int, text"},
-	"not_exists_opt":          {"if not exists"},
-	"exists_opt":              {"if exists"},
-	"ddl_force_eof":           {""},
-	"force_eof":               {""},
-	"constraint_opt":          {"unique"},
-	"using_opt":               {"using btree"},
-	"sql_id":                  {"a", "idx"},
-	"column_list":             {"a", "a, b"},
-	"to_opt":                  {"to", "as"},
-	"index_opt":               {"index", "key"},
+	"ID":                               {"foo", "bar1"},
+	"comment_opt":                      {"/* c1 */", "/* a */ /* b */"},
+	"cache_opt":                        {"sql_no_cache", "sql_cache"},
+	"distinct_opt":                     {"distinct"},
+	"straight_join_opt":                {"straight_join"},
+	"select_expression_list":           {"a, b", "*", "t.a as x, count(*), 'lit'", "a + 1, -b, (c)"},
+	"select_expression":                {"a", "*", "t.a as x"},
+	"from_opt":                         {"from t", "from t, u", "from t join u on t.a = u.a", "from t as x left join u on x.a = u.a", "from (select a from v) as s"},
+	"from_table_opt":                   {"from u", "from u, v as w", "from u join v on u.a = v.a"},
+	"where_expression_opt":             {"where a = 1", "where a = 1 and (b < 2 or c is null)", "where a in (1, 2) and b like 'x%'", "where exists (select 1 from v)"},
+	"group_by_opt":                     {"group by a", "group by a, b + 1"},
+	"having_opt":                       {"having count(*) > 1", "having a = 1 or b = 2"},
+	"order_by_opt":                     {"order by a", "order by a desc, b asc"},
+	"limit_opt":                        {"limit 5", "limit 5 offset 2", "limit 2, 5", "limit all", "limit all offset 3"},
+	"lock_opt":                         {"for update", "lock in share mode"},
+	"num_val":                          {"5 values", "value", ":n values"},
+	"for_from":                         {"for", "from"},
+	"table_name":                       {"t", "db.t"},
+	"table_id":                         {"t", "db1"},
+	"union_op":                         {"union", "union all", "union distinct"},
+	"insert_or_replace":                {"insert", "replace"},
+	"ignore_opt":                       {"ignore"},
+	"into_table_name":                  {"into t", "t", "into db.t"},
+	"opt_partition_clause":             {"partition (p0)", "partition (p0, p1)"},
+	"tuple_list":                       {"(1, 'a')", "(1, 'a'), (2, null)", "(default, a + 1)"},
+	"ins_column_list":                  {"a, b", "a, t.b"},
+	"on_dup_opt":                       {"on duplicate key update a = 1", "on duplicate key update a = values(a), b = b + 1"},
+	"returning_opt":                    {"returning a", "returning *", "returning a, b + 1 as c"},
+	"update_list":                      {"a = 1", "a = 1, b = 'x'", "t.a = b + 1, c = (select 1 from v)"},
+	"table_references":                 {"t", "t, u", "t join u on t.a = u.a", "t as x"},
+	"aliased_table_name":               {"t", "t as x", "db.t"},
+	"aliased_table_name_list":          {"t", "t, u", "t as x, u"},
+	"from_or_using":                    {"from", "using"},
+	"set_list":                         {"a = 1", "a = 1, b = 'x'", "names utf8", "autocommit = on"},
+	"set_to_list":                      {"search_path to public", "a to 1, 2"},
+	"set_operation_scope":              {"session", "global", "local"},
+	"set_session_or_global":            {"session", "global"},
+	"transaction_chars":                {"isolation level read committed", "read only", "isolation level serializable, read write"},
+	"using_in_execute_list":            {"@a", "@a, @b"},
+	"row_tuple":                        {"(1, 'a')", "(1)"},
+	"column_any_type_list":             {"int", "int, text"},
+	"not_exists_opt":                   {"if not exists"},
+	"exists_opt":                       {"if exists"},
+	"ddl_force_eof":                    {""},
+	"force_eof":                        {""},
+	"constraint_opt":                   {"unique"},
+	"using_opt":                        {"using btree"},
+	"sql_id":                           {"a", "idx"},
+	"column_list":                      {"a", "a, b"},
+	"to_opt":                           {"to", "as"},
+	"index_opt":                        {"index", "key"},
 	"non_add_drop_or_rename_operation": {"alter", "default", "foo"},
-	"alter_object_type":       {"column", "index"},
-	"show_session_or_global":  {"session", "global"},
-	"show_operation_scope":    {"session", "global", "local"},
-	"extended_opt":            {"extended"},
-	"full_opt":                {"full"},
-	"tables_or_processlist":   {"tables", "processlist"},
-	"from_database_opt":       {"from db1", "in db1"},
-	"like_or_where_opt":       {"like 'a%'", "where a = 1"},
-	"vindex_type_opt":         {"using hash"},
-	"vindex_params_opt":       {"with owner = t, a = b"},
-	"partition_operation":     {"reorganize partition p0 into (partition p1 values less than (10), partition p2 values less than (maxvalue))"},
+	"alter_object_type":                {"column", "index"},
+	"show_session_or_global":           {"session", "global"},
+	"show_operation_scope":             {"session", "global", "local"},
+	"extended_opt":                     {"extended"},
+	"full_opt":                         {"full"},
+	"tables_or_processlist":            {"tables", "processlist"},
+	"from_database_opt":                {"from db1", "in db1"},
+	"like_or_where_opt":                {"like 'a%'", "where a = 1"},
+	"vindex_type_opt":                  {"using hash"},
+	"vindex_params_opt":                {"with owner = t, a = b"},
+	"partition_operation":              {"reorganize partition p0 into (partition p1 values less than (10), partition p2 values less than (maxvalue))"},
 }
 
 // symbols whose fragments are statements produced by this generator itself (filled while it runs)
@@ -245,7 +286,7 @@ var formStatementSyms = map[string]string{
 
 type formGen struct {
 	r      *core.Run
-	rules  map[string]bool // symbols that are rules of the grammar (appear as rule of a production) – best effort
+	kinds  string // the statement kinds of the regenerated table, comma-joined (argument of the census op)
 	pools  map[string][]string
 	counts map[string]int
 	// bookkeeping for the evidence
@@ -356,6 +397,17 @@ func runForms(r *core.Run) {
 		panic(fmt.Sprintf("harness: C13: the model's regenerated statement-form table is too small (%d productions, %d paths)", len(prods), len(paths)))
 	}
 	g := &formGen{r: r, pools: map[string][]string{}, counts: map[string]int{}, perProd: map[string]int{}, missingSyms: map[string]bool{}, reached: map[string]bool{}, notPresent: map[string]int{}}
+	{
+		seenK := map[string]bool{}
+		var ks []string
+		for _, p := range paths {
+			if !seenK[p.kind] {
+				seenK[p.kind] = true
+				ks = append(ks, p.kind)
+			}
+		}
+		g.kinds = strings.Join(ks, ",")
+	}
 	// seeds for the statement-valued symbols until the generator has produced its own
 	g.pools["select_statement"] = []string{"select a from t", "select a from t order by a limit 1"}
 	g.pools["base_select"] = []string{"select a from t", "select distinct a, b from t where a = 1 group by a having b > 1"}
@@ -494,9 +546,9 @@ func (g *formGen) build(p formProd, in map[int]bool, v int, dialect string) (str
 func (g *formGen) judge(p formProd, in map[int]bool, text, dialect string, paths []formPath, prodKey string) bool {
 	r := g.r
 	r.Begin("form:"+dialect+":"+text, true, "stream:forms", "dialect:"+dialect)
-	out := r.Impl("C13.forms.census " + dialect + " " + hexS(text))
+	out := r.Impl("C13.forms.census " + dialect + " " + hexS(text) + " " + g.kinds)
 	f := strings.Fields(out)
-	if len(f) < 3 {
+	if len(f) < 2 {
 		r.Tag("forms:" + f[0])
 		if f[0] == "reparse-fails" {
 			// let the round-trip oracle classify it (known finding / DML / non-DML)
@@ -505,25 +557,39 @@ func (g *formGen) judge(p formProd, in map[int]bool, text, dialect string, paths
 		}
 		return false
 	}
-	kind := f[0]
-	present := map[string]bool{}
-	if f[1] != "-" {
-		for _, x := range strings.Split(f[1], ",") {
-			present[x] = true
+	kind, path := "", -1
+	topPresent := map[string]bool{}
+	for ni, nd := range strings.Split(f[0], "|") {
+		x := strings.SplitN(nd, ":", 2)
+		present, values := map[string]bool{}, map[string]string{}
+		if len(x) == 2 && x[1] != "" {
+			for _, fl := range strings.Split(x[1], ",") {
+				if j := strings.IndexByte(fl, '='); j >= 0 {
+					values[fl[:j]] = unhexS(fl[j+1:])
+					fl = fl[:j]
+				}
+				present[fl] = true
+			}
 		}
+		np := pathOf(paths, x[0], present, values, dialect)
+		where := "top"
+		if ni == 0 {
+			kind, path, topPresent = x[0], np, present
+		} else {
+			where = "nested"
+		}
+		g.reached[fmt.Sprintf("%s/%d", x[0], np)] = true
+		for fl := range present {
+			g.counts[fmt.Sprintf("%s/%d/%s", x[0], np, fl)]++
+		}
+		g.counts[fmt.Sprintf("%s/%d/(%s statements)", x[0], np, where)]++
 	}
-	path := pathOf(paths, kind, present)
-	g.reached[fmt.Sprintf("%s/%d", kind, path)] = true
 	g.perProd[prodKey]++
-	for x := range present {
-		g.counts[fmt.Sprintf("%s/%d/%s", kind, path, x)]++
-	}
-	g.counts[fmt.Sprintf("%s/%d/(statements)", kind, path)]++
 	r.Tag("forms:parsed", "forms-kind:"+kind)
 	if kind == p.kind {
 		// the clause the generator put in is there (otherwise the counts above would claim coverage they do not have)
 		for i, s := range p.syms {
-			if s.nullable && in[i] && s.field != "" && !present[s.field] {
+			if s.nullable && in[i] && s.field != "" && !topPresent[s.field] {
 				g.notPresent[fmt.Sprintf("%s:%s(%s)", p.kind, s.sym, s.field)]++
 			}
 		}
@@ -531,8 +597,8 @@ func (g *formGen) judge(p formProd, in map[int]bool, text, dialect string, paths
 	// (1) structural round trip
 	checkRoundTrip(r, dialect, text, "forms")
 	// (2) clause census
-	if f[2] != "same" {
-		what := strings.Join(f[2:], " ")
+	if f[1] != "same" {
+		what := strings.Join(f[1:], " ")
 		if dmlKinds[kind] {
 			if !(strings.HasPrefix(dialect, "my") && hasIntervalString(dialect, text)) {
 				r.Fail("clause-census:"+kind, fmt.Sprintf("the clauses of Parse(String(Parse s)) differ from those of Parse s [%s, %s path %d]: %s  (%s)", dialect, kind, path, trunc(text), what))
@@ -542,7 +608,7 @@ func (g *formGen) judge(p formProd, in map[int]bool, text, dialect string, paths
 		}
 	}
 	// feed the statement-valued symbols
-	if dmlKinds[kind] && f[2] == "same" {
+	if dmlKinds[kind] && f[1] == "same" {
 		switch {
 		case p.rule == "base_select":
 			g.addPool("base_select", text)
